@@ -26,7 +26,7 @@ DY_ATOMIC = ["+", "-", "*", "%", "<", ">", "=", "&", "|"]
 MONADS = ["-", "_", "|"]
 RS = ["+", "*", "|", "&"]
 EACH_FNS = ["{x*2}", "{x+1}", "{-x}"]
-COMPILABLE_DY = {"+", "-", "*", "%", "<", ">", "="}
+COMPILABLE_DY = {"+", "-", "*", "%", "^", "<", ">", "="}
 
 
 def _binds():
@@ -46,8 +46,11 @@ def _gen(rng, d, vars_):
             return ["var", rng.choice(vars_)]
         return ["lit", rng.choice([I(0), I(1), I(2), I(3), R(0.5), R(2.0)])]
     r = rng.random()
-    if r < 0.40:
+    if r < 0.36:
         return ["dy", rng.choice(DY_ATOMIC), _gen(rng, d - 1, vars_), _gen(rng, rng.randint(0, d - 1), vars_)]
+    if r < 0.40:
+        # powers with a small literal exponent only: keeps results inside float32's exact range
+        return ["dy", "^", _gen(rng, d - 1, vars_), ["lit", rng.choice([I(2), I(3), R(0.5), I(0)])]]
     if r < 0.52:
         return ["mo", rng.choice(MONADS), _gen(rng, d - 1, vars_)]
     if r < 0.64:
@@ -70,6 +73,9 @@ def _depth1(vars_):
         out.append(["dy", op, leaves[0], leaves[1]])
         out.append(["dy", op, leaves[0], ["lit", I(2)]])
         out.append(["dy", op, ["lit", R(0.5)], leaves[0]])
+    for e in (I(2), I(3), R(0.5), I(0)):
+        out.append(["dy", "^", leaves[0], ["lit", e]])
+        out.append(["dy", "^", ["mo", "-", leaves[0]], ["lit", e]])
     for op in MONADS:
         out.append(["mo", op, leaves[0]])
     for op in RS:
@@ -122,7 +128,7 @@ def _compiler_only(t):
     return False
 
 
-_FLOAT = re.compile(r"-?\d+\.\d*(?:e[+-]?\d+)?|-?\d+e[+-]?\d+|-?inf|nan")
+_FLOAT = re.compile(r"-?\d+\.\d*(?:e[+-]?\d+)?|-?\d+e[+-]?\d+|-?inf|nan|-?\d{8,}")
 
 
 def _norm_text(s):
